@@ -14,6 +14,9 @@ RULE = (
     "variable; 'error' raises ValueError iff such a row exists; 'pass' (pointwise numeric formulas) keeps all rows, "
     "complete rows as under drop, NaN in exactly the columns derived from the missing variable; other na_action "
     "values are refused.  A case is one (formula, pattern); non-trivial: the pattern hits a used column"
+    '  Added markers: duplicated index labels, nullable Float64 / Int64 / Int32 / UInt8 / Int16 columns (pd.NA), '
+    'ordered categoricals with unobserved categories, 300-row frames with one incomplete row; formulas that '
+    'add and subtract a term; histories of an unrelated design before the case. '
 )
 ASSUMPTIONS = ["the set of used variables per formula is written down by hand in the check (not computed from the library)",
                "'pass' is only checked for plain numeric variables and pointwise calls"]
